@@ -61,6 +61,13 @@ var worldMisc = &world{
 		opts = append(opts, participle.CaseInsensitive("Ident"), participle.Union[mxInit](mxInitNum{}, &mxInitList{}))
 		return mustPH[mxFile](nil, opts...)
 	},
+	altBuild: func(o buildOpts) PH {
+		// the same union with its members registered the other way round (value <-> pointer is fixed
+		// by the marker methods; the order is the caller's)
+		opts := applyCommon(o, nil, nil)
+		opts = append(opts, participle.CaseInsensitive("Ident"), participle.Union[mxInit](&mxInitList{}, mxInitNum{}))
+		return mustPH[mxFile](nil, opts...)
+	},
 	docs: []doc{
 		{name: "all", valid: true, text: "export #hot var a: int ? [8] = -10 { x, 1, y } <t1 t2>;\nconst B: Str ~ 2.5 <u>;\nVAR c <v>;\n"},
 		{name: "unicode", valid: true, text: "var größe: ünï = 7 <π>;\n"},
